@@ -20,6 +20,7 @@ import (
 	"math/rand"
 	"net/http"
 	"net/http/httptest"
+	"net/url"
 	"regexp"
 	"runtime"
 	"sort"
@@ -78,6 +79,7 @@ func main() {
 			"{add(request), read->multiset, reset} checked for linearizability with porcupine; the workload also runs under the race detector. " +
 			"API exchanges are drawn from the same distribution as ordinary traffic w.r.t. everything verifiers and filters look at (header present with matching / other / blank value or absent on either side, method, query keys, cookies; API responses carry the drawn headers). " +
 			"Every 256th history is long (1100-1700 mostly failing exchanges through a group-rooted tree, queried three times: >1024 failures per verifier and per tree between resets); a tenth of the exchanges carries a query string net/url cannot parse completely (stray %, ';' separator). " +
+			"Trees also contain failing sibling modifiers (probes that return errors: a non-aggregating group stops there); API requests are addressed to the virtual host or to the API server's real address (handlers registered under both, as cmd/proxy does); every operation of a sequential history is awaited by quiescence too. " +
 			"Header verifiers also target Host and Transfer-Encoding (kept outside the header map by net/http; messages are built as http.ReadRequest/ReadResponse deliver them, chunked bodies included). " +
 			"Stress runs (quick 16 + 20 under the race detector, thorough 320 + 168): 3-5 goroutines x 60-120 exchanges racing with 2-4 query loops and, in every second run, a reset loop; interval checks on every query (nothing spurious, duplicated or surviving a completed reset, nothing completed-before-the-query missing). " +
 			"Every concurrent run is awaited by quiescence (vh.Await): operations that never return while all martian goroutines are parked = violation C13:stuck (the batch then ends). " +
@@ -238,6 +240,13 @@ func newSUT(wiring string, t *cfgx.Node, proxyMode bool) (*sut, error) {
 	}
 	s.mux.Handle(apiName+"/verify", s.qh)
 	s.mux.Handle(apiName+"/verify/reset", s.rh)
+	// cmd/proxy registers every API handler a second time under the API server's own
+	// host name, so that API requests addressed to the real address are recognised too
+	s.mux.Handle(apiHost+"/verify", s.qh)
+	s.mux.Handle(apiHost+"/verify/reset", s.rh)
+	if h, _ := s.mux.Handler(&http.Request{Method: "GET", Host: apiName, URL: &url.URL{Path: "/configure"}}); h != nil {
+		s.mux.Handle(apiHost+"/configure", h)
+	}
 	if proxyMode {
 		s.proxy = martian.NewProxy()
 		s.proxy.SetRoundTripper(rtFunc(s.roundTrip))
@@ -255,6 +264,15 @@ func (s *sut) close() {
 		s.lis.Close()
 		s.proxy.Close()
 	}
+}
+
+// apiAddr draws the address an API request is sent to: the virtual host, or
+// the API server's real address (both are "the proxy's own API").
+func apiAddr(rng *rand.Rand) string {
+	if rng.Intn(3) == 0 {
+		return fmt.Sprintf("%s:%d", apiHost, apiPort)
+	}
+	return apiName
 }
 
 type rtFunc func(*http.Request) (*http.Response, error)
@@ -698,7 +716,7 @@ func genSeq(r *vh.Run, stream string, idx int) seqCase {
 			id++
 			var m *cfgx.Msg
 			if rng.Intn(100) < pAPI {
-				m = cfgx.GenAPI(rng, c.Tree, id, apiName, "/configure", "GET", false)
+				m = cfgx.GenAPI(rng, c.Tree, id, apiAddr(rng), "/configure", "GET", false)
 			} else {
 				m = cfgx.GenTraffic(rng, c.Tree, id)
 				if c.Proxy {
@@ -709,14 +727,14 @@ func genSeq(r *vh.Run, stream string, idx int) seqCase {
 		case x < 82:
 			if rng.Intn(100) < 2*pAPI {
 				id++
-				c.Steps = append(c.Steps, hstep{Op: "query", Via: "proxy", Msg: cfgx.GenAPI(rng, c.Tree, id, apiName, "/verify", "GET", true)})
+				c.Steps = append(c.Steps, hstep{Op: "query", Via: "proxy", Msg: cfgx.GenAPI(rng, c.Tree, id, apiAddr(rng), "/verify", "GET", true)})
 			} else {
 				c.Steps = append(c.Steps, hstep{Op: "query", Via: "direct"})
 			}
 		default:
 			if rng.Intn(100) < 2*pAPI {
 				id++
-				c.Steps = append(c.Steps, hstep{Op: "reset", Via: "proxy", Msg: cfgx.GenAPI(rng, c.Tree, id, apiName, "/verify/reset", "POST", true)})
+				c.Steps = append(c.Steps, hstep{Op: "reset", Via: "proxy", Msg: cfgx.GenAPI(rng, c.Tree, id, apiAddr(rng), "/verify/reset", "POST", true)})
 			} else {
 				c.Steps = append(c.Steps, hstep{Op: "reset", Via: "direct"})
 			}
@@ -1003,13 +1021,21 @@ func placementBucket(sides []*vside) string {
 }
 
 // judgeSeq executes a sequential history and compares every query.
-func judgeSeq(r *vh.Run, c seqCase) {
+// judgeSeq executes a sequential history and compares every query. It
+// returns false if an operation never returned (the system is stuck: the batch
+// ends, further cases would only repeat the wait).
+func judgeSeq(r *vh.Run, c seqCase) bool {
 	s, err := newSUT(c.Wiring, c.Tree, c.Proxy)
 	if err != nil {
 		r.ViolationCase(c, "C13:config-rejected", "a valid verifier configuration was rejected: "+err.Error(), map[string]interface{}{"config": c.Tree.JSON()})
-		return
+		return true
 	}
-	defer s.close()
+	stuck := false
+	defer func() {
+		if !stuck {
+			s.close()
+		}
+	}()
 	a := newAttributor(c.Tree)
 	m := newSeqModel(a)
 	var seq int64
@@ -1019,16 +1045,36 @@ func judgeSeq(r *vh.Run, c seqCase) {
 		if cl, err = s.dial(); err != nil {
 			r.SetCase(c)
 			r.Inconclusive("proxy dial failed", err.Error())
-			return
+			return !stuck
 		}
-		defer cl.c.Close()
+		defer func() {
+			if !stuck {
+				cl.c.Close()
+			}
+		}()
+	}
+	// every operation is awaited by quiescence: one that never returns while all martian
+	// goroutines are parked is a violation (C13:stuck), not a watchdog timeout
+	guard := func(what string, fn func()) bool {
+		var wg sync.WaitGroup
+		wg.Add(1)
+		go func() { defer wg.Done(); fn() }()
+		if !awaitAll(r, c, &wg, &seq, what, map[string]interface{}{"config_json": c.Tree.JSON(), "tree_txt": c.Tree.Describe(), "wiring": c.Wiring}) {
+			stuck = true
+			return false
+		}
+		return true
 	}
 	do := func(msg *cfgx.Msg) (exResult, bool) {
 		var res exResult
-		if c.Proxy {
-			res = s.exchangeProxy(cl, msg, stamp)
-		} else {
-			res = s.exchangeDirect(msg, stamp)
+		if !guard("an exchange in a sequential history", func() {
+			if c.Proxy {
+				res = s.exchangeProxy(cl, msg, stamp)
+			} else {
+				res = s.exchangeDirect(msg, stamp)
+			}
+		}) {
+			return res, false
 		}
 		if res.err != nil {
 			r.SetCase(c)
@@ -1052,7 +1098,7 @@ func judgeSeq(r *vh.Run, c seqCase) {
 			id++
 			ri := a.register(id, st.Msg)
 			if _, ok := do(st.Msg); !ok {
-				return
+				return !stuck
 			}
 			before := len(m.pending)
 			m.traffic(ri)
@@ -1070,18 +1116,18 @@ func judgeSeq(r *vh.Run, c seqCase) {
 				ri := a.register(id, st.Msg)
 				res, ok := do(st.Msg)
 				if !ok {
-					return
+					return !stuck
 				}
 				code = res.status
 				m.traffic(ri)
 				apiSince = true
-			} else {
-				code = s.resetDirect()
+			} else if !guard("POST /verify/reset in a sequential history", func() { code = s.resetDirect() }) {
+				return false
 			}
 			r.Eval(1)
 			if code != 204 {
 				r.ViolationCase(c, "C13:reset:status", fmt.Sprintf("step %d: the reset handler answered %d, want 204", i, code), nil)
-				return
+				return !stuck
 			}
 			m.reset()
 			sinceReset, failsSince, apiSince = true, false, false
@@ -1092,25 +1138,25 @@ func judgeSeq(r *vh.Run, c seqCase) {
 				ri := a.register(id, st.Msg)
 				res, ok := do(st.Msg)
 				if !ok {
-					return
+					return !stuck
 				}
 				// the query request itself is an API request passing the tree before the handler runs
 				m.traffic(ri)
 				apiSince = true
 				body, code = res.body, res.status
-			} else {
-				code, body = s.queryDirect()
+			} else if !guard("GET /verify in a sequential history", func() { code, body = s.queryDirect() }) {
+				return false
 			}
 		}
 		r.Eval(1)
 		if code != 200 {
 			r.ViolationCase(c, "C13:query:status", fmt.Sprintf("step %d: the verification handler answered %d", i, code), nil)
-			return
+			return !stuck
 		}
 		msgs, perr := parseErrors(body)
 		if perr != nil {
 			r.ViolationCase(c, "C13:query:body", fmt.Sprintf("step %d: %v", i, perr), nil)
-			return
+			return !stuck
 		}
 		fs := m.compareQuery(msgs)
 		for _, f := range fs {
@@ -1127,7 +1173,7 @@ func judgeSeq(r *vh.Run, c seqCase) {
 			r.ViolationCase(cc, f.sig, fmt.Sprintf("step %d (%s query): %s", i, st.Via, f.what), f.detail)
 		}
 		if len(fs) > 0 {
-			return // later queries would only repeat the divergence
+			return true // later queries would only repeat the divergence
 		}
 		pat := "query"
 		switch {
@@ -1171,6 +1217,7 @@ func judgeSeq(r *vh.Run, c seqCase) {
 		r.Count("queries_compared", 1)
 		r.Count("errors_compared", int64(len(msgs)))
 	}
+	return true
 }
 
 func runSeq(r *vh.Run, child int) {
@@ -1178,7 +1225,9 @@ func runSeq(r *vh.Run, child int) {
 	for i := child; i < total; i += nSeq {
 		c := genSeq(r, "c13-seq", i)
 		r.Case(map[string]interface{}{"kind": "gen-seq", "stream": "c13-seq", "idx": i, "steps": len(c.Steps), "config_json": json.RawMessage(c.Tree.JSON())})
-		judgeSeq(r, c)
+		if !judgeSeq(r, c) {
+			return
+		}
 		if i == child && child < 2 {
 			var ops []string
 			for _, s := range c.Steps {
@@ -1328,10 +1377,16 @@ func awaitAll(r *vh.Run, c interface{}, wg *sync.WaitGroup, progress *int64, wha
 			return false
 		}
 	}
+	for i := 0; i < 2000; i++ { // fast path only; the verdict comes from Await
+		if finished() {
+			return true
+		}
+		runtime.Gosched()
+	}
 	select {
 	case <-done:
 		return true
-	case <-time.After(100 * time.Millisecond): // fast path only; the verdict comes from Await
+	case <-time.After(100 * time.Millisecond):
 	}
 	out, fp := vh.Await(finished, vh.AwaitOpts{Activity: func() string { return strconv.FormatInt(atomic.LoadInt64(progress), 10) }})
 	switch out {
@@ -1428,7 +1483,7 @@ func runConc(r *vh.Run, c concCase, race bool) bool {
 				id++
 				var m *cfgx.Msg
 				if rng.Intn(8) == 0 {
-					m = cfgx.GenAPI(rng, t, id, apiName, "/configure", "GET", false)
+					m = cfgx.GenAPI(rng, t, id, apiAddr(rng), "/configure", "GET", false)
 				} else {
 					m = cfgx.GenTraffic(rng, t, id)
 					if proxyMode {
@@ -1439,7 +1494,7 @@ func runConc(r *vh.Run, c concCase, race bool) bool {
 			case x < 88:
 				if rng.Intn(6) == 0 {
 					id++
-					plans[g] = append(plans[g], cop{kind: "query", via: "proxy", msg: cfgx.GenAPI(rng, t, id, apiName, "/verify", "GET", true), id: id})
+					plans[g] = append(plans[g], cop{kind: "query", via: "proxy", msg: cfgx.GenAPI(rng, t, id, apiAddr(rng), "/verify", "GET", true), id: id})
 				} else {
 					plans[g] = append(plans[g], cop{kind: "query", via: "direct"})
 				}
@@ -1745,7 +1800,7 @@ func runStress(r *vh.Run, c stressCase) bool {
 			id++
 			var m *cfgx.Msg
 			if rng.Intn(10) == 0 {
-				m = cfgx.GenAPI(rng, t, id, apiName, "/configure", "GET", false)
+				m = cfgx.GenAPI(rng, t, id, apiAddr(rng), "/configure", "GET", false)
 			} else {
 				m = cfgx.GenTraffic(rng, t, id)
 			}
